@@ -21,6 +21,7 @@ import Compress.Proofs.BzWApiLatch
 import Compress.Proofs.MetaWApi
 import Compress.Proofs.WrapInit
 import Compress.Bzip2.ReaderApi
+import Compress.Proofs.FlateApiRefine
 
 namespace Compress.Props.C14
 open Compress Compress.Window
@@ -132,5 +133,24 @@ open Compress.Bzip2.ReaderApi in
 theorem C14_bzip2_reader_reset_fresh (r : Reader) (src : Src) (ops : List Bzip2.ReaderApi.Op) :
     r.reset src = newReader src ∧ Reader.run (r.reset src) ops = Reader.run (newReader src) ops :=
   ⟨rfl, rfl⟩
+
+open Compress.Flate.Api Compress.Proofs.FlateRefine in
+/-- **flate.Reader: Reset = new (API-level model, incl. Close and a failing source).** From ANY
+    state `r0` of the API model - closed, failed on corrupt data or on a source error, abandoned with
+    pending output, any stale window - Reset onto a source and a newly constructed reader on that
+    source deliver the same bytes for every two Read schedules, end with the same error, have that
+    error latched with nothing pending and are not closed, so that `Close` returns the same on both
+    (`C09_flate_close_result`). -/
+theorem C14_flate_api_reset_fresh (r0 : Reader) (src : Src) (s1 s2 : List Nat)
+    (h1 : ∀ n, s1.getLast? = some n → 0 < n) (h2 : ∀ n, s2.getLast? = some n → 0 < n) :
+    ∃ ra rb got e, Reader.drive (runFuel src.bits s1) (r0.reset src) s1 #[] = (got, some e, ra) ∧
+      Reader.drive (runFuel src.bits s2) (newReader src) s2 #[] = (got, some e, rb) ∧
+      ra.err = some e ∧ rb.err = some e ∧ ra.done = false ∧ rb.done = false ∧
+      (ra.close).2 = (rb.close).2 := by
+  obtain ⟨ra, a1, a2, a3, _, _⟩ := Compress.Proofs.FlateApi.reset_drive_spec r0 src s1 h1
+  obtain ⟨rb, b1, b2, b3, _, _⟩ := Compress.Proofs.FlateApi.new_drive_spec src s2 h2
+  refine ⟨ra, rb, _, _, a1, b1, a2, b2, a3, b3, ?_⟩
+  rw [Compress.Proofs.FlateApi.close_eq, Compress.Proofs.FlateApi.close_eq, a2, b2, a3, b3]
+  split <;> rfl
 
 end Compress.Props.C14
